@@ -117,23 +117,30 @@ impl Tr {
             Tr::Camelize => v.to_lower_camel_case(),
             Tr::Dasherize => v.to_kebab_case(),
             Tr::Underscorize => v.to_snake_case(),
-            Tr::Slice13 => {
-                // ASCII values only in this alphabet: bytes 1..3, clamped to the length
-                let b = v.as_bytes();
-                if 1 > b.len() {
-                    String::new()
-                } else {
-                    String::from_utf8_lossy(&b[1..b.len().min(3)]).to_string()
-                }
-            }
+            Tr::Slice13 => ref_slice(v, 1, Some(3)),
             Tr::ReplaceAB => v.replace('a', "b"),
-            // ASCII values only in this alphabet
-            Tr::SliceBlankTo3 => v[..v.len().min(3)].to_string(),
-            Tr::Slice1ToBlank => if v.is_empty() { String::new() } else { v[1..].to_string() },
-            Tr::SliceMinus1To2 => v[..v.len().min(2)].to_string(),
+            Tr::SliceBlankTo3 => ref_slice(v, 0, Some(3)),
+            Tr::Slice1ToBlank => ref_slice(v, 1, None),
+            Tr::SliceMinus1To2 => ref_slice(v, 0, Some(2)),
             Tr::Unknown | Tr::ReplaceNoOptions | Tr::SliceNoTo => v.to_string(),
         }
     }
+}
+
+/// byte offsets [from, to) clamped to the length; an offset inside a multi-byte character moves back to its first byte
+fn ref_slice(v: &str, from: usize, to: Option<usize>) -> String {
+    let mut to = to.unwrap_or(v.len()).min(v.len());
+    let mut from = from;
+    if from > v.len() || from >= to {
+        return String::new();
+    }
+    while !v.is_char_boundary(from) {
+        from -= 1;
+    }
+    while !v.is_char_boundary(to) {
+        to -= 1;
+    }
+    v[from..to].to_string()
 }
 
 #[derive(Clone, Debug, Serialize, Deserialize)]
@@ -548,7 +555,7 @@ pub fn cases(tier: Tier) -> Vec<Case> {
             if assign.iter().filter(|k| **k == named).count() > 1 {
                 continue;
             }
-            if (0..n).any(|i| t.markers[i].1 == 'h' && types[assign[i]].name == "at-sign") {
+            if (0..n).any(|i| (t.markers[i].1 == 'h' && types[assign[i]].name == "at-sign") || (t.markers[i].1 != 'p' && types[assign[i]].name == "accented")) {
                 continue;
             }
             // values: all accepted combinations; rejected one slot at a time (only in anchored positions)
